@@ -72,12 +72,17 @@ func (s *socket) addPipe(tp transport.Pipe, d *dialer, l *listener) {
 
 	p.lock.Lock()
 	if p.closing {
+		// Closed by the hook while attaching: it was never added, so
+		// nobody else will forget it or release its ID.
 		p.lock.Unlock()
+		s.pipes.Remove(p)
+		pipeIDs.Free(p.id)
 		return
 	}
 	if s.proto.AddPipe(p) != nil {
 		p.lock.Unlock()
 		s.pipes.Remove(p)
+		pipeIDs.Free(p.id)
 		go p.close()
 		return
 	}
